@@ -37,13 +37,19 @@ theorem src_is_tag_node (h : is_tag_node_available = true) (G : Globals) (a : Ar
     | seqLike k xs => cases k <;> simp [embA, embSeq, seqName, isInstance, builtinClasses, classBases, Arg.isTagNode]
     | _ => simp [embA, isInstance, builtinClasses, classBases, Arg.isTagNode]
 
+/-- (C15b) `a or b` with a bool left operand: `src_is_tag_child` then also covers the `return a or b or c` spelling of the three
+    tests (benign/B3-1) -/
+theorem pyOr_boolC15b (x : Bool) (m : PyM PVal) : pyOr (.ok (.bool x)) m = if x then .ok (.bool true) else m := by
+  cases x <;> rfl
+
+set_option linter.unusedSimpArgs false in
 /-- `is_tag_child(x)` as the source has it = `Arg.isTagChild`, for every value -/
 theorem src_is_tag_child (h : is_tag_child_available = true) (hn : is_tag_node_available = true) (G : Globals) (a : Arg) :
     is_tag_child G (embA a) = .ok (.bool a.isTagChild) := by
   first
   | exact absurd h (by decide)
   | unfold is_tag_child
-    simp only [src_is_tag_node hn, ok_bind, pure_eq_ok, truthy_bool]
+    simp only [src_is_tag_node hn, ok_bind, pure_eq_ok, truthy_bool, pyOr_boolC15b]
     cases a with
     | node n =>
       cases n <;> simp [Arg.isTagNode, Node.isTagNode, Arg.isTagChild]
